@@ -379,6 +379,18 @@ def run(repo: Repo) -> Result:
         res.undecide("C06.R3", f"{parse_key}::alias map", "no group of the declaration pattern binds the alias of `[N] as AL`", parse_where)
     for want, what in ((names, "declared components"), (tails, "dependors"), (heads, "dependees")):
         flow("C06.R3", f"{parse_key}::{what} in the component set", want, set(Aset), f"{what} are part of the returned component set", f"the {what} do not reach ParsedDependencies.all_modules: a component that only occurs as {what[:-1]} is missing (no rule is generated for it)", parse_where)
+    # aliases are not components: the text of the alias group must not reach the result (unless the analysis itself merged name and alias)
+    if aliases:
+        leaked = [a for a in aliases if a in (K | V | set(Aset))]
+        final_nodes = {id(n) for av in (deps_av, mods_av) for n in reachable(av)}
+        mixing = [n for n in interp.nodes.values() if id(n) not in final_nodes and mixes(n, set(aliases), set(names) | set(tails) | set(heads))]
+        construct = f"{parse_key}::aliases are not components"
+        if not leaked:
+            res.add("C06.R3", construct, True, "the text bound by the alias group is only used as key of the alias map", parse_where, kind="flow")
+        elif mixing or fuzzy:
+            res.observe(f"C06.R3 not armed: {', '.join(short(a) for a in leaked)} may reach the result, but the analysis merges alias and name in an intermediate container ({mixing[0].kind if mixing else 'unmodelled call'})")
+        else:
+            res.add("C06.R3", construct, False, f"the text bound by {', '.join(short(a) for a in leaked)} (the alias of `[N] as AL`) reaches the returned components / relation: aliases are listed as components instead of being resolved", parse_where, kind="flow")
     # results of non-mutating methods that are thrown away
     for fi in repo.all_functions():
         if fi.fq not in interp_seen(interp):
@@ -393,6 +405,37 @@ def run(repo: Repo) -> Result:
     # ---- R4 tags
     check_tags(repo, res, parser, error_cls, {lp.p.text for lp in lps}, parse_key, parse_where)
     return res
+
+
+def reachable(av: A.AV, seen: dict | None = None) -> list:
+    seen = seen if seen is not None else {}
+    for n in av.refs:
+        if id(n) in seen:
+            continue
+        seen[id(n)] = n
+        if isinstance(n, A.Seq):
+            reachable(n.elem, seen)
+        elif isinstance(n, A.Dict):
+            reachable(n.k, seen)
+            reachable(n.v, seen)
+        elif isinstance(n, A.View):
+            reachable(A.ref(n.d), seen)
+        elif isinstance(n, A.Rec):
+            for v in n.fields.values():
+                reachable(v, seen)
+    return list(seen.values())
+
+
+def mixes(n, left: set, right: set) -> bool:
+    """Does one abstract slot of the node hold text of both kinds (the abstraction cannot tell them apart any more)?"""
+    slots: list[A.AV] = []
+    if isinstance(n, A.Seq):
+        slots = [n._elem, *(n.items or [])]
+    elif isinstance(n, A.Dict):
+        slots = [n.k, n.v]
+    elif isinstance(n, A.Rec):
+        slots = list(n.fields.values())
+    return any(left & s.prov and right & s.prov for s in slots)
 
 
 def interp_seen(interp: A.Interp) -> set[str]:
